@@ -156,6 +156,7 @@ P = {
   decided={
     "C18.i": "ModelRepository.remove_model, evaluated on a three-entry repository (two files and a string model under a synthetic key): removing a stored model removes exactly its entry wherever it sits; a model that is not stored changes nothing",
     "C13.e": "the test that gates the descent of the processor walk looks the object's class up by its qualified name (_tx_fqn), the key under which every namespace of the meta-model is searched, not by the simple class name",
+    "C13.f": "by evaluation of textxerror_wrap: the wrapper returns what the wrapped processor returns (the replacement value reaches the model)",
     "C13.a": "by evaluation of call_obj_processors over a sample model: contained objects are processed before their container, an object's own-rule processor before the declared-rule processor, each registered processor exactly once per object; in parse_tree_to_objgraph processors run after the resolution loop, the unresolved check and _end_model_construction of all models",
     "C13.b": "by evaluation: a non-None processor result replaces the object in its list slot / single attribute, the own-rule result wins over the declared-rule result, a None result leaves the object in place",
     "C13.c": "by evaluation: the target of a non-containment reference is not descended into, match-rule values are not handed to the walker's processors",
@@ -255,14 +256,14 @@ P = {
 "C20": dict(
   decided={"C20.a": "every Match construction in the grammar visitor passes ignore_case derived from metamodel.ignore_case",
            "C20.c": "no process-wide cache holds an object built with ignore_case under a key that omits it",
-           "C20.d": "the ignore_case argument of every Match construction is metamodel.ignore_case on every reaching definition",
+           "C20.d": "the ignore_case argument of every Match construction is metamodel.ignore_case on every reaching definition; by evaluation of visit_str_match / visit_re_match the match objects built carry the meta-model's ignore_case and regex patterns are handed on unchanged and compiled",
            "C20.b": "the ignore_case option of the metamodel is forwarded to the model parser under its own name"},
   declined="that case mutation never changes acceptance; value case preservation (Arpeggio terminals)",
   technique="must-pass keyword-argument rule with alias expansion over all Match constructions"),
 "C21": dict(
-  decided={"C21.a": "keyword classification regex is the identifier class; keyword branch only on a full match; emitted regex ends in \\b; non-keyword path builds the same StrMatch",
+  decided={"C21.a": "by evaluation of TextXVisitor.__init__ and visit_str_match on sample literals (re is the standard library's own): with autokwd on exactly the literals that are identifiers as a whole become a compiled RegExMatch of <text>\\b printed as the text, every other literal and every literal with autokwd off a StrMatch of the decoded text; the classifier regex is (word minus digit)(word)*",
            "C21.c": "no process-wide cache holds an object built with autokwd under a key that omits it",
-           "C21.d": "the keyword classification is applied to the decoded literal (escape decoding precedes it)",
+           "C21.d": "by evaluation: escapes of a grammar literal are decoded before the keyword classification ('caf\\xe9' is the keyword café)",
            "C21.b": "the autokwd option of the metamodel is forwarded to the model parser under its own name"},
   declined="model equality with/without autokwd for all inputs",
   technique="regex category algebra + guard analysis on the RegExMatch construction"),
@@ -284,7 +285,7 @@ P = {
 "C23": dict(
   decided={
     "C23.a": "every raise reachable from metamodel_from_str raises a TextXError subclass; asserts are listed",
-    "C23.b": "library raisers (codecs.decode, re.compile, int, float, open) are converted or guarded",
+    "C23.b": "library raisers (codecs.decode, re.compile, int, float, open) are converted or guarded; by evaluation a grammar literal with a broken escape and an invalid grammar regex end in a TextXSyntaxError, never in a bare Python exception",
     "C23.c": "error handlers do not crash (no subscript of a terminal node)",
     "C23.d": "kind errors in rule parameters: evaluated over {skipws, ws, split, other} x {True, False, strings}, visit_rule_params never fails with a Python-level error (a bool used as a string); it raises a TextX error or returns the table",
     "C23.e": "recursion along rule cross-references carries a cycle check",
@@ -319,6 +320,7 @@ P = {
 "C26": dict(
   decided={
     "C26.g": "registry functions evaluated on a sample registry: languages_for_file (name equals or matches the pattern), generator_description (own generator, else 'any' with any_permitted, else TextXRegistrationError; names lower-cased), clear_generator_registrations (registry unset)",
+    "C26.h": "the registry module as a state machine, by evaluation of sequences of API calls over one shared module state: names are case-insensitive in every function, duplicates refused, entry points discovered lazily and again after a clear, a clear forgets programmatic registrations and cached meta-models, a meta-model is built once and cached but built anew whenever keyword arguments are given (whatever their values), an instance is used as it is, file lookup needs exactly one matching language",
     "C26.a": "every registry subscript / membership / get uses a lower()-normalised key (reaching definitions)",
     "C26.b": "registry reads are dominated by lazy (re)discovery; clearing languages invalidates the metamodel cache",
     "C26.c": "duplicate registration raises",
